@@ -11,7 +11,7 @@ COMMANDS = ["build", "test", "lint", "prep", "deploy"]
 ODD_ARGS = ["", " ", "a b", "--flag", "-x", "'quoted'", "\"dq\"", "$HOME", "*", "é", "a\nb", "tab\there", "--k=v w"]
 
 
-def gen_targets(rng, nmin=1, nmax=6):
+def gen_targets(rng, nmin=1, nmax=6, dense=False):
     """acyclic by construction: a target only uses targets declared before it in a hidden order"""
     n = rng.range(nmin, nmax)
     paths = []
@@ -34,7 +34,7 @@ def gen_targets(rng, nmin=1, nmax=6):
             # p->q (uses) and q->p (nesting): a cycle, so skip those
             if q.startswith(p + "/"):
                 continue
-            if rng.chance(1, 4):
+            if rng.chance(1, 2 if dense else 4):
                 uses.append(q if rng.chance(1, 2) else q + "/src/x.rs")
         if uses:
             t["uses"] = uses
@@ -82,9 +82,9 @@ def is_acyclic(targets):
     return all(state[v] != 0 or dfs(v) for v in range(n))
 
 
-def gen_acyclic_targets(rng, nmin=1, nmax=6):
+def gen_acyclic_targets(rng, nmin=1, nmax=6, dense=False):
     for _ in range(50):
-        ts = gen_targets(rng, nmin, nmax)
+        ts = gen_targets(rng, nmin, nmax, dense)
         if is_acyclic(ts):
             return ts
     return [{"path": "app"}]
@@ -107,9 +107,9 @@ def closure(targets, named):
 class RunScenario:
     """a repository + one `run` invocation, with everything the oracle needs to know"""
 
-    def __init__(self, rng, max_targets=5, with_argmaps=True, custom_dirs=True, undefined_pct=10, slash=False):
+    def __init__(self, rng, max_targets=5, with_argmaps=True, custom_dirs=True, undefined_pct=10, slash=False, force_mode=None, force_fou=None, dense=False):
         self.rng = rng
-        self.targets = gen_acyclic_targets(rng, 1, max_targets)
+        self.targets = gen_acyclic_targets(rng, 3 if dense else 1, max_targets, dense)
         if slash and rng.chance(1, 2):
             # a target path written with a trailing slash names the same directory
             t = rng.pick(self.targets)
@@ -178,6 +178,8 @@ class RunScenario:
         paths = [t["path"] for t in self.targets]
         nameable = [p for p in paths if " " not in p]   # -t splits its values on spaces
         mode = rng.below(3) if nameable else 0
+        if force_mode is not None and nameable:
+            mode = force_mode
         self.named = []
         self.deps = False
         if mode == 1:
@@ -200,6 +202,8 @@ class RunScenario:
                 self.commands = self.commands[:1]
                 self.named = self.named[:1] or ([rng.pick(nameable)] if nameable else [])
         self.fail_on_undefined = rng.chance(1, 4)
+        if force_fou is not None:
+            self.fail_on_undefined = force_fou
 
     def expected_targets(self):
         paths = sorted(t["path"] for t in self.targets)
